@@ -20,6 +20,7 @@ func init() {
 			"D4 clamping table of the exact quantile queries and extreme/count/sum getters read the statistics. "+
 			"D5 statistics blocks: encoder and decoder use the same primitive per flag (shared with C06/C07) and the decoder's final guard is the exact decision table: after a successful decode, refusal exactly when the decoded count is 0 and the inner sketch is not empty. "+
 			"D6 accessors — count, sum, emptiness and extremes are read from the statistics ((NaN, error) exactly when empty), zero weight, stores and iteration from the inner sketch; the constructor from parts refuses exactly when the emptiness of the two parts disagrees and otherwise holds exactly the two parts. "+
+			"SHARED (obligations of other properties that decide clauses this property states too, re-evaluated here under their home rule ids): C13-D3 sketch Reweight (the wrapper scales the statistics on the success edge only, so a refused factor must leave the inner sketch untouched: w ≤ 0 → error and no write). "+
 			"NOT DECIDED: ulp bound of the compensated sum; exactness of float addition of counts.",
 		"one obligation per wrapper path, per promoted method, per statistics field × operation, per clamping cell; non-trivial = needed a path, mod-set or term evaluation",
 		false, runC10)
@@ -38,6 +39,9 @@ func runC10(c *Ctx) {
 	c10Clamp(c, a)
 	c10Decode(c, a)
 	c10EncodeGuards(c, a)
+	// the wrapper scales the statistics only when the inner Reweight accepts: a refusal that has already written to the
+	// inner sketch leaves the two apart
+	c.shared(func() { c13Reweight(c, a) }, func(o *Obligation) bool { return strings.Contains(o.Key, "DDSketch).Reweight") })
 }
 
 // c10Wrappers: part == "" checks every wrapper; "Reweight" / "ChangeMapping" only that one (C16 / C17 re-evaluate it
